@@ -11,8 +11,8 @@
    Not a theorem (C01_full): the operations outside the fragment (A2B/B2A, private-bit
    MixedMultiply, Truncate (C05), Sort (C18), Join (C19)); these are covered by the end-to-end
    differential oracle of the harness.  Further down: the deep (graph-emitting) model of
-   compile_to_mpc_graph with its literal tie and correctness theorems (C01_deep_*), and the bridge
-   from the ring reading to the evaluator model Graph/Eval.v (C01_ring_reading_*). *)
+   compile_to_mpc_graph with its literal tie and correctness theorems (names C01_deep_...), and the bridge
+   from the ring reading to the evaluator model Graph/Eval.v (names C01_ring_reading_...). *)
 From Coq Require Import Ring.
 From CC Require Import Base.Prelude Model.MpcShallow Proofs.MpcShallowProofs Proofs.MpcShallowInst.
 
